@@ -752,8 +752,8 @@ def rebalance_cases(draw, tier="quick"):
 
 
 PARTS = [
-    Part("broker", strategy=lambda tier: broker_cases(tier), run=run_broker, quick=12000, thorough=300000),
-    Part("rebalance", strategy=lambda tier: rebalance_cases(tier), run=run_rebalance, quick=3000, thorough=60000),
+    Part("broker", strategy=lambda tier: broker_cases(tier), run=run_broker, quick=12000, thorough=200000),
+    Part("rebalance", strategy=lambda tier: rebalance_cases(tier), run=run_rebalance, quick=3000, thorough=40000),
 ]
 
 
